@@ -755,6 +755,57 @@ Proof.
     rewrite G. cbn [bind]. now rewrite Hu.
 Qed.
 
+Definition has_list_any := fix any (l : list td) : bool := match l with [] => false | x :: r => has_list_leaf x || any r end.
+Lemma has_list_leaf_nstack : forall items, has_list_leaf (NStack items) = has_list_any items.
+Proof. reflexivity. Qed.
+
+(* when no item is a list, the nesting of tolist() is unambiguous: directories without "ndim" (all of those written before
+   the repair that loaded correctly, and all of those written now for such stacks) *)
+Lemma from_list_tolist_none : forall t, stack_ok t = true -> has_list_leaf t = false ->
+  match t with NStack _ => from_list None (tolist t) = Ok t | _ => True end.
+Proof.
+  induction t using td_ind'; intros Hs Hnl; auto.
+  rewrite stack_ok_nstack in Hs. apply andb_true_iff in Hs as [Hs Hu]. apply andb_true_iff in Hs as [Hs Hkind].
+  apply andb_true_iff in Hs as [Hne Hall]. rewrite has_list_leaf_nstack in Hnl.
+  rewrite tolist_nstack, from_list_plist. cbn [deeper option_map]. rewrite andb_true_r.
+  destruct items as [|x0 items0]; [discriminate|]. set (items := x0 :: items0) in *.
+  apply orb_true_iff in Hkind as [Hd|Hn].
+  - assert (Hfirst : is_plist (tolist x0) = false).
+    { cbn in Hd, Hall, Hnl. apply andb_true_iff in Hd as [Hd _]. apply andb_true_iff in Hall as [Hx _].
+      apply orb_false_iff in Hnl as [Hnl _].
+      destruct x0; try discriminate. cbn in Hx. destruct bs; try discriminate. cbn in Hnl |- *. exact Hnl. }
+    assert (Hnest : forallb is_plist (tolist_items items) && forallb (fun x => Nat.eqb (plen x) (plen (hd PNone (tolist_items items)))) (tolist_items items) = false).
+    { unfold items. cbn [tolist_items forallb]. rewrite Hfirst. reflexivity. }
+    rewrite Hnest.
+    assert (G : forall nd, all_ok (from_list_items false nd (tolist_items items)) = Ok items).
+    { intro nd. clear -Hd Hall. induction items as [|x l IH]; cbn; auto.
+      cbn in Hd, Hall. apply andb_true_iff in Hd as [Hx Hd]. apply andb_true_iff in Hall as [Hsx Hall].
+      fold tolist_items. fold (from_list_items false nd). rewrite IH by assumption. cbn.
+      destruct x; try discriminate. cbn in Hsx. destruct bs; try discriminate. reflexivity. }
+    rewrite G. cbn [bind]. now rewrite Hu.
+  - assert (Hnest : forallb is_plist (tolist_items items) && forallb (fun x => Nat.eqb (plen x) (plen (hd PNone (tolist_items items)))) (tolist_items items) = true).
+    { apply andb_true_iff. split.
+      - clear -Hn. generalize Hn. generalize (List.length match hd (NData [] PNone) items with NStack i0 => i0 | _ => [] end). intros n Hn'.
+        clear Hn. induction items as [|y l IH]; cbn; auto. cbn in Hn'. apply andb_true_iff in Hn' as [Hy Hn'].
+        destruct y; try discriminate. cbn. fold tolist_items. auto.
+      - set (n0 := List.length (match hd (NData [] PNone) items with NStack i0 => i0 | _ => [] end)) in *.
+        assert (Hlen : forall x, In x items -> plen (tolist x) = n0).
+        { intros x Hx. rewrite forallb_forall in Hn. specialize (Hn x Hx). destruct x; try discriminate.
+          apply Nat.eqb_eq in Hn. rewrite tolist_nstack. cbn [plen]. now rewrite length_tolist_items. }
+        assert (Hhd : plen (hd PNone (tolist_items items)) = n0).
+        { unfold items. cbn [tolist_items hd]. apply Hlen. now left. }
+        rewrite Hhd. apply forallb_plen. exact Hlen. }
+    rewrite Hnest.
+    assert (G : all_ok (from_list_items true None (tolist_items items)) = Ok items).
+    { clear -H Hall Hn Hnl. generalize Hn. generalize (List.length match hd (NData [] PNone) items with NStack i0 => i0 | _ => [] end). intros n Hn'. clear Hn.
+      induction items as [|x l IH]; cbn; auto.
+      cbn in Hall, Hn', Hnl. apply andb_true_iff in Hall as [Hsx Hall]. apply andb_true_iff in Hn' as [Hnx Hn'].
+      apply orb_false_iff in Hnl as [Hnx' Hnl]. inversion H; subst.
+      fold tolist_items. fold (from_list_items true None). rewrite IH; auto.
+      specialize (H2 Hsx Hnx'). destruct x; try discriminate. rewrite H2. reflexivity. }
+    rewrite G. cbn [bind]. now rewrite Hu.
+Qed.
+
 Lemma norm_stack : forall t, stack_ok t = true -> norm t = t.
 Proof.
   induction t using td_ind'; intro Hs; try discriminate; auto.
@@ -769,21 +820,45 @@ Lemma nstack_roundtrip : forall o items,
   exists d, save_over o (NStack items) empty_dir = Ok d /\ decode d = Ok (norm (NStack items)).
 Proof.
   intros o items Hs. rewrite (norm_stack _ Hs).
-  pose proof (from_list_tolist (NStack items) Hs) as FL. cbn beta iota in FL. unfold rank in FL.
+  assert (FL : from_list (stack_ndim (NStack items)) (tolist (NStack items)) = Ok (NStack items)).
+  { unfold stack_ndim. destruct (has_list_leaf (NStack items)) eqn:Hl.
+    - exact (from_list_tolist (NStack items) Hs).
+    - exact (from_list_tolist_none (NStack items) Hs Hl). }
+  assert (ND : forall m, (match sget "ndim" (m ++ match stack_ndim (NStack items) with Some n => [("ndim", jnat n)] | None => [] end) with
+                          | Some jn => jnat_of jn | None => None end) = stack_ndim (NStack items)
+                         \/ sget "ndim" m <> None).
+  { intro m. destruct (sget "ndim" m) eqn:E; [right; congruence|left].
+    rewrite sget_app_none by exact E. destruct (stack_ndim (NStack items)); cbn; [apply jnat_of_jnat|reflexivity]. }
   unfold empty_dir. cbn [save_over]. unfold nstack_files.
+  set (head := [("_type", JStr "NonTensorStack"); ("stack_dim", JInt 0); ("device", JNull)]).
   destruct (is_json_serializable (tolist (NStack items))) eqn:Es.
-  - destruct (plain_roundtrip _ (ser_plain _ Es)) as (j & Hj1 & Hj2). rewrite Hj1. cbn [bind fset List.app].
+  - destruct (plain_roundtrip _ (ser_plain _ Es)) as (j & Hj1 & Hj2). rewrite Hj1. cbn [bind fset].
     eexists. split; [reflexivity|].
-    rewrite decode_dir. unfold load_top. cbn [fget fname_eqb sget String.eqb Ascii.eqb Bool.eqb]. cbv beta iota.
-    unfold load_nstack. cbn [fget fname_eqb sget String.eqb Ascii.eqb Bool.eqb]. cbv beta iota. rewrite jnat_of_jnat.
+    rewrite decode_dir. unfold load_top. cbn [fget fname_eqb].
+    assert (Et : sget "_type" ((head ++ match stack_ndim (NStack items) with Some n => [("ndim", jnat n)] | None => [] end) ++ [("data", j)])
+                 = Some (JStr "NonTensorStack")) by reflexivity.
+    rewrite Et. cbn [String.eqb Ascii.eqb Bool.eqb]. cbv beta iota. unfold load_nstack.
+    assert (Edata : sget "data" ((head ++ match stack_ndim (NStack items) with Some n => [("ndim", jnat n)] | None => [] end) ++ [("data", j)]) = Some j).
+    { destruct (stack_ndim (NStack items)); reflexivity. }
+    assert (End : (match sget "ndim" ((head ++ match stack_ndim (NStack items) with Some n => [("ndim", jnat n)] | None => [] end) ++ [("data", j)]) with
+                   | Some jn => jnat_of jn | None => None end) = stack_ndim (NStack items)).
+    { destruct (stack_ndim (NStack items)); cbn; [apply jnat_of_jnat|reflexivity]. }
+    rewrite Edata, End.
     assert (exists js, j = JArr js) as (js & ->).
     { rewrite tolist_nstack in Hj1. cbn in Hj1. destruct (_ (tolist_items items)) in Hj1; inversion Hj1; eauto. }
     rewrite Hj2. exact FL.
-  - cbn [bind fset fname_eqb List.app].
+  - cbn [bind fset fname_eqb].
     eexists. split; [reflexivity|].
-    rewrite decode_dir. unfold load_top. cbn [fget fname_eqb sget String.eqb Ascii.eqb Bool.eqb]. cbv beta iota.
-    unfold load_nstack. cbn [fget fname_eqb sget String.eqb Ascii.eqb Bool.eqb]. cbv beta iota. rewrite jnat_of_jnat.
-    exact FL.
+    rewrite decode_dir. unfold load_top. cbn [fget fname_eqb].
+    assert (Et : sget "_type" ((head ++ match stack_ndim (NStack items) with Some n => [("ndim", jnat n)] | None => [] end) ++ [("data", JStr "pickle.pkl")])
+                 = Some (JStr "NonTensorStack")) by reflexivity.
+    rewrite Et. cbn [String.eqb Ascii.eqb Bool.eqb]. cbv beta iota. unfold load_nstack.
+    assert (Edata : sget "data" ((head ++ match stack_ndim (NStack items) with Some n => [("ndim", jnat n)] | None => [] end) ++ [("data", JStr "pickle.pkl")]) = Some (JStr "pickle.pkl")).
+    { destruct (stack_ndim (NStack items)); reflexivity. }
+    assert (End : (match sget "ndim" ((head ++ match stack_ndim (NStack items) with Some n => [("ndim", jnat n)] | None => [] end) ++ [("data", JStr "pickle.pkl")]) with
+                   | Some jn => jnat_of jn | None => None end) = stack_ndim (NStack items)).
+    { destruct (stack_ndim (NStack items)); cbn; [apply jnat_of_jnat|reflexivity]. }
+    rewrite Edata, End. cbn [fget fname_eqb]. exact FL.
 Qed.
 
 (* ------------------------------------------------------------------ the round trip, for every valid structure *)
